@@ -587,7 +587,9 @@ fn run(case: &Case, out: &mut Out) {
                         hc.seen.retain(|k, _| present.contains(k));
                         let waiting = inflight.iter().any(|(c, b, ad)| {
                             let (k, t, to) = hc.seen[&(c.clone(), b.clone(), *ad)];
-                            !(k == K_HANG || k == K_SLOW) || hc.now - t >= to
+                            // an answer may take a moment to arrive; a deadline that has passed is acted on by
+                            // the very next poll(): no point in waiting long for that one
+                            !(k == K_HANG || k == K_SLOW) || (hc.now - t >= to && t0.elapsed() < Duration::from_millis(300))
                         });
                         if waiting {
                             calm = 0;
